@@ -3,6 +3,7 @@
 //! and conformance checks of assumptions made about dependencies.
 
 mod conformance;
+mod crash;
 mod gen_c01;
 mod gen_c02;
 mod gen_c03;
@@ -34,7 +35,7 @@ use util::{jstr, J};
 
 fn usage() -> ! {
     eprintln!(
-        "usage:\n  sdjwt-replay witness <PROP> <KEY> [--seed N] [--budget-ms T]\n  sdjwt-replay search <PROP> [--seed N] [--budget-ms T]\n  sdjwt-replay replay <FILE>\n  sdjwt-replay conformance\n  sdjwt-replay list"
+        "usage:\n  sdjwt-replay witness <PROP> <KEY> [--seed N] [--budget-ms T] [--skip GEN,..]\n  sdjwt-replay search <PROP> [--seed N] [--budget-ms T] [--skip GEN,..]\n  sdjwt-replay replay <FILE>\n  sdjwt-replay conformance\n  sdjwt-replay list"
     );
     std::process::exit(2);
 }
@@ -45,6 +46,7 @@ fn opt(args: &[String], name: &str) -> Option<u64> {
 
 fn main() {
     sut::install_silent_panic_hook();
+    crash::install();
     let args: Vec<String> = std::env::args().skip(1).collect();
     if args.is_empty() {
         usage();
@@ -65,7 +67,14 @@ fn main() {
             }
             let seed = opt(rest, "--seed").unwrap_or(1);
             let budget = opt(rest, "--budget-ms").unwrap_or(if is_search { 60000 } else { 20000 });
-            let out = harness::run(&prop, &key, seed, Duration::from_millis(budget));
+            // optional: --skip gen1,gen2 leaves out named generators (e.g. ones reporting recorded findings)
+            let skip: Vec<String> = rest
+                .iter()
+                .position(|a| a == "--skip")
+                .and_then(|i| rest.get(i + 1))
+                .map(|v| v.split(',').map(String::from).collect())
+                .unwrap_or_default();
+            let out = harness::run(&prop, &key, seed, Duration::from_millis(budget), &skip);
             let line = match out.violation {
                 Some((generator, input, observed, expected)) => json!({
                     "found": true, "property": prop, "generator": generator, "input": input,
@@ -104,7 +113,13 @@ fn main() {
                 eprintln!("unknown generator {gname}");
                 std::process::exit(2)
             };
-            match harness::check_with_watchdog(&g, &w["input"]) {
+            crash::arm(
+                &format!("REPRODUCED property={prop} observed: ABORT: the process was killed by a signal (stack overflow / abort) | expected: every call returns Ok or Err"),
+                1,
+            );
+            let verdict = harness::check_with_watchdog(&g, &w["input"]);
+            crash::disarm();
+            match verdict {
                 Verdict::Fail { observed, expected } => {
                     println!("REPRODUCED property={prop} observed: {observed} | expected: {expected}");
                     std::process::exit(1);
